@@ -12,6 +12,8 @@
 #include <unistd.h>
 #include <fcntl.h>
 #include <ctype.h>
+#include <sys/types.h>
+#include <sys/wait.h>
 #include "esl_alphabet.h"
 #include "esl_sq.h"
 #include "esl_sqio.h"
@@ -106,6 +108,13 @@ static const char *wf(const ESL_SQ *s, int kind)
   return NULL;
 }
 
+static FILE *h_sink;      /* when set, result lines go there (joined later into one answer line) instead of stdout */
+static void h_emit(const char *line)
+{
+  if (h_sink) { fputs(line, h_sink); fputs(" ;; ", h_sink); }
+  else h_out("%s", line);
+}
+
 static void print_sq(const char *st, const ESL_SQ *s, int kind)
 {
   const char *w = wf(s, kind);
@@ -120,7 +129,7 @@ static void print_sq(const char *st, const ESL_SQ *s, int kind)
   if (w && (!strcmp(w, "salloc") || !strcmp(w, "negative-n") || !strcmp(w, "no-seq"))) p += sprintf(p, " seq=?");
   else p += sprintf(p, " seq=%s", s->seq ? h_hex(s->seq, s->n) : h_hex(s->dsq + 1, s->n));
   if (w) p += sprintf(p, " wf=0:%s", w); else p += sprintf(p, " wf=1");
-  h_out("%s", b);
+  h_emit(b);
   free(b);
 }
 
@@ -128,11 +137,12 @@ static void print_status(int status, int kind)
 {
   const char *exc = h_exception_seen ? " exc" : "";
   const char *msg = (sqfp && !esl_sqio_IsAlignment(sqfp->format) ? sqfp->data.ascii.errbuf[0] : (sqfp ? esl_sqfile_GetErrorBuf(sqfp)[0] : 0)) ? "msg" : "nomsg";
+  char tmp[256];
   if      (status == eslOK)      print_sq("ok", sq, kind);
   else if (status == eslEOD)     print_sq("eod", sq, 'i');
-  else if (status == eslEOF)     h_out("eof");
-  else if (status == eslEFORMAT) h_out("eformat line=%" PRId64 " %s%s", sqfp ? sqfp->data.ascii.linenumber : 0, msg, exc);
-  else                           h_out("%s %s%s", h_status(status), msg, exc);
+  else if (status == eslEOF)     h_emit("eof");
+  else if (status == eslEFORMAT) { snprintf(tmp, sizeof(tmp), "eformat line=%" PRId64 " %s%s", sqfp ? sqfp->data.ascii.linenumber : 0, msg, exc); h_emit(tmp); }
+  else                           { snprintf(tmp, sizeof(tmp), "%s %s%s", h_status(status), msg, exc); h_emit(tmp); }
   if (!(status == eslOK || status == eslEOF || status == eslEOD)) dead = 1;
 }
 
@@ -236,6 +246,52 @@ static void h_op(void)
   }
   if (!strcmp(op, "roundtrip")) { if (!sqfp) h_out("closed"); else op_roundtrip(); return; }
 
+  if (!strcmp(op, "srcscan")) {
+    /* srcscan src=gzip|stdin fmt= abc= B= call=read|readinfo|readseq|win C= W=: read the current file to its end through a gzip -dc
+     * pipe (file name *.gz) or through standard input ("-"; done in a child process whose stdin is the file). One answer line:
+     * the record lines joined by " ;; ". */
+    const char *src = h_arg("src") ? h_arg("src") : "gzip", *call = h_arg("call") ? h_arg("call") : "read", *a = h_arg("abc");
+    int fmt = fmt_code(h_arg("fmt")), C = (int) h_argi("C", 0), W = (int) h_argi("W", 10), is_stdin = !strcmp(src, "stdin");
+    char gz[80], cmd[256], *text; long tn; pid_t pid = 0; int wst = 0, guard = 0;
+    close_all();
+    esl_verif_readbufsize = (int) h_argi("B", 4096);
+    if (a && strcmp(a, "text")) { abctype = !strcmp(a, "dna") ? eslDNA : !strcmp(a, "rna") ? eslRNA : eslAMINO; abc = esl_alphabet_Create(abctype); }
+    snprintf(gz, sizeof(gz), "%s.gz", fname);
+    if (!is_stdin) { snprintf(cmd, sizeof(cmd), "gzip -c < %s > %s", fname, gz); if (system(cmd) != 0) { h_out("gzip-failed"); return; } }
+    fflush(stdout);
+    if (is_stdin) { pid = fork(); if (pid < 0) { h_out("fork-failed"); return; } }
+    if (!is_stdin || pid == 0) {
+      h_sink = fopen("t.scan", "wb");
+      if (is_stdin && freopen(fname, "rb", stdin) == NULL) { fputs("freopen-failed ;; ", h_sink); fclose(h_sink); _exit(0); }
+      status = abc ? esl_sqfile_OpenDigital(abc, is_stdin ? "-" : gz, fmt, NULL, &sqfp) : esl_sqfile_Open(is_stdin ? "-" : gz, fmt, NULL, &sqfp);
+      if (status != eslOK) { char t[64]; sqfp = NULL; snprintf(t, sizeof(t), "open-%s", h_status(status)); h_emit(t); }
+      else {
+        sq = abc ? esl_sq_CreateDigital(abc) : esl_sq_Create();
+        dead = 0;
+        while (!dead && guard++ < 200000) {
+          if (!esl_sqio_IsAlignment(sqfp->format)) sqfp->data.ascii.errbuf[0] = '\0';
+          h_exception_seen = 0;
+          if      (!strcmp(call, "read"))     { esl_sq_Reuse(sq); status = esl_sqio_Read(sqfp, sq);         print_status(status, 'w'); }
+          else if (!strcmp(call, "readinfo")) { esl_sq_Reuse(sq); status = esl_sqio_ReadInfo(sqfp, sq);     print_status(status, 'i'); }
+          else if (!strcmp(call, "readseq"))  { esl_sq_Reuse(sq); status = esl_sqio_ReadSequence(sqfp, sq); print_status(status, 'w'); }
+          else { status = esl_sqio_ReadWindow(sqfp, C, W, sq); print_status(status, 'v'); if (status == eslEOD) esl_sq_Reuse(sq); }
+          if (status == eslEOF) break;
+        }
+      }
+      fclose(h_sink); h_sink = NULL;
+      if (is_stdin) _exit(0);
+      close_all();
+    }
+    if (is_stdin) { waitpid(pid, &wst, 0); if (!WIFEXITED(wst) || WEXITSTATUS(wst) != 0) { h_out("child-died status=%d", wst); remove("t.scan"); return; } }
+    { FILE *fp = fopen("t.scan", "rb"); if (!fp) { h_out("no-output"); return; }
+      fseek(fp, 0, SEEK_END); tn = ftell(fp); rewind(fp); text = malloc(tn + 8);
+      if (fread(text, 1, tn, fp) != (size_t) tn) tn = 0;
+      text[tn] = 0; fclose(fp); remove("t.scan"); remove(gz);
+      if (tn >= 4 && !strcmp(text + tn - 4, " ;; ")) text[tn - 4] = 0;
+      h_out("scan-%s %s", is_stdin ? "stdin" : "gzip", text); free(text); }
+    if (abc && is_stdin) { esl_alphabet_Destroy(abc); abc = NULL; }
+    return;
+  }
   if (!strcmp(op, "afetch")) {
     /* afetch hex=<multi-alignment Stockholm file> keys=<hex,hex,...>: index it with esl-afetch's create_ssi_index, then for every key
      * position by key and let the tool regurgitate the entry (absent keys: esl_msafile_PositionByKey status only). */
@@ -363,6 +419,22 @@ static void h_op(void)
       else print_status(status, 's');
     }
     free(k);
+  }
+  else if (!strcmp(op, "echo")) {
+    FILE *fp = tmpfile();
+    status = esl_sqio_Echo(sqfp, sq, fp);
+    if (status == eslOK) op_file_hex(fp, "echo");
+    else { h_out("%s%s", h_status(status), h_exception_seen ? " exc" : ""); dead = 1; }
+    fclose(fp);
+  }
+  else if (!strcmp(op, "toolfetch")) {
+    int64_t n; char *k; FILE *fp;
+    if (!sqfp->data.ascii.ssi) { h_out("bad-op"); return; }
+    if (!tool_go) { char *argv[3] = { "esl-sfetch", "f", "k" }; tool_go = esl_getopts_Create(options); esl_opt_ProcessCmdline(tool_go, 3, argv); }
+    k = (char *) h_unhex(h_arg("key"), &n);
+    fp = tmpfile();
+    onefetch(tool_go, fp, k, sqfp);      /* esl-sfetch: PositionByKey + Read + Echo; esl_fatal() (process exit) on any error */
+    op_file_hex(fp, "toolfetch"); fclose(fp); free(k);
   }
   else if (!strcmp(op, "toolsub")) {
     int64_t n; char *k; FILE *fp;
